@@ -37,7 +37,11 @@ type scen struct {
 	Gap     int     `json:"gap_ms"` // virtual time between prologue and the concurrent phase
 	W       []tstep `json:"workers"`
 	KeyMax  []int   `json:"key_max"`
-	Coarse  bool    `json:"coarse_boundaries"` // only storage calls and the handler are boundaries
+	// Level of boundaries: 0 = Storage.Get/Set, MaxFunc, KeyGenerator, handler entry and exit;
+	// 1 = Storage.Get/Set and handler entry; 2 = Storage.Get/Set only (every order of storage
+	// operations is still reached; only the instants at which handler entry / exit are stamped
+	// vary less). Coarser levels make three workers exhaustible.
+	Level int `json:"boundary_level"`
 	workers string
 }
 
@@ -48,9 +52,7 @@ func (sc *scen) String() string {
 	for i, w := range sc.W {
 		fmt.Fprintf(&sb, " w%d:key%d/max%d/%s", i, w.Key, sc.KeyMax[w.Key], w.Mode)
 	}
-	if sc.Coarse {
-		sb.WriteString(" (coarse)")
-	}
+	fmt.Fprintf(&sb, " (boundaries L%d)", sc.Level)
 	return sb.String()
 }
 
@@ -98,7 +100,9 @@ func genScen(r *gen.Rand, nw int) *scen {
 		}
 		sc.W = append(sc.W, mk(k))
 	}
-	sc.Coarse = nw >= 3 && r.Chance(1, 2)
+	if nw >= 3 {
+		sc.Level = r.PickW(0, 1, 2)
+	}
 	return sc
 }
 
@@ -234,7 +238,7 @@ func (sc *scen) runOnce(caseID string, ch sched.Chooser) *schedRun {
 	rg.mu.Unlock()
 	rg.vs.Yield = func(p string) { s.Yield(p) }
 	rg.yield = func(p string) {
-		if sc.Coarse && (p == "keygen" || p == "maxfunc" || p == "handler.exit") {
+		if (sc.Level >= 1 && p != "handler.entry") || sc.Level >= 2 {
 			return
 		}
 		s.Yield(p)
@@ -473,6 +477,7 @@ func runSched(e *ev.Env, c *ev.Case) {
 func runWalk(e *ev.Env, c *ev.Case) {
 	r := c.R
 	sc := genScen(r, r.Range(3, 4))
+	sc.Level = 0
 	sr := r.Split()
 	run := sc.runOnce(c.ID, sched.RandomChooser(sr.Intn))
 	sc.account(e, c, run, "walk", map[string]bool{})
